@@ -3,7 +3,7 @@
 From Coq Require Import List Bool Arith NArith Lia ZifyBool ZifyNat ZifyN.
 Import ListNotations.
 From TarpcV Require Import Base Transport Client ClientS ClientWake ClientWakeSpec ClientLemmas
-  ClientProofsG1Frames ClientProofsG1 ClientProofsG1C11.
+  ClientProofsG1Frames ClientProofsG1 ClientProofsG1C11 ClientProofsG1Fuel.
 Local Open Scope N_scope.
 
 Arguments N.modulo : simpl never.
@@ -3228,3 +3228,56 @@ Proof.
       * congruence.
 Qed.
 Print Assumptions c02_quiescent_holds.
+
+(* ================================================================== C02: settle terminates (MY OWN ADDITION, partial)
+   The statement below is not pinned in ClientWakeSpec.v; it is the third part of C02 (poll_total
+   for the wake-driven runs): on reachable states the settle of `wstep` never reports WFuel. *)
+Definition stmt_c02_settles : Prop := forall c ops, wno_wrap ops -> settled c ops.
+
+(* What is proved: the flag `so_fuel` of a settle is raised ONLY by running out of rounds, never by
+   a dispatch poll that ran out of fuel (`DFuel`), for EVERY state and every number of rounds.
+   What is missing for stmt_c02_settles: that `rounds_of s + length (st_inbox (tr s))` rounds cannot
+   all be non-quiet on a reachable state, i.e. `~ all_noisy (rounds_of s + ...) s sobs0`.
+   Suggested measure (not carried out): 4 per call in PNew/PAcquiring/PAssigned, 2 per PAcqClosed,
+   1 per PAwaiting, 2 per queued request, 1 per queued cancellation / in-flight entry / inbox item,
+   1 each for "some call is PNew", "terminal = None", "dispatch not finished"; every function of the
+   round is non-increasing in it and a non-quiet round decreases it. *)
+Fixpoint all_noisy (n : nat) (s : sstate) (o : sobs) : Prop :=
+  match n with
+  | O => True
+  | S n' => let '(s2, o2, q) := round stp sfuel s o in q = false /\ all_noisy n' s2 o2
+  end.
+
+Lemma round_no_fuel (s : sstate) o : so_fuel (snd (fst (round stp sfuel s o))) = so_fuel o.
+Proof.
+  unfold round, disp_half.
+  destruct (finished s); [destruct (poll_calls s 0 _ []); reflexivity|].
+  destruct (dropped s); [destruct (poll_calls s 0 _ []); reflexivity|].
+  set (s0 := upd_tr s (tr s) (fused s) []).
+  destruct (poll_dispatch stp (sfuel s0) s0) as [res s'] eqn:Ep.
+  pose proof (poll_dispatch_fuel _ _ _ _ (phi_lt_sfuel s0) Ep) as N.
+  destruct (poll_calls _ 0 _ []). cbn [fst snd so_fuel]. destruct res; try reflexivity. congruence.
+Qed.
+
+Theorem c02_settles_partial : forall n (s : sstate) o s' r,
+  settle stp sfuel n s o = (s', r) -> so_fuel o = false ->
+  (so_fuel r = true <-> all_noisy n s o).
+Proof.
+  induction n as [|n IH]; intros s o s' r H Ho.
+  - cbn in H. injection H as <- <-. cbn. tauto.
+  - rewrite settle_S in H. cbn [all_noisy]. pose proof (round_no_fuel s o) as F.
+    destruct (round stp sfuel s o) as [[s2 o2] q]. cbn [fst snd] in F. destruct q.
+    + injection H as <- <-. rewrite F, Ho. split; [discriminate|intros [X _]; discriminate].
+    + rewrite (IH _ _ _ _ H); [tauto|congruence].
+Qed.
+Print Assumptions c02_settles_partial.
+
+(* consequence for the scripted runs: a WFuel observation of `wstep` means that all
+   `rounds_of s + length (st_inbox (tr s))` rounds were non-quiet *)
+Corollary wstep_fuel_only_rounds (s : sstate) :
+  snd (wstep s WSettle) = WFuel -> all_noisy (rounds_of s + length (st_inbox (tr s))) s sobs0.
+Proof.
+  cbn [wstep]. destruct (settle stp sfuel _ s sobs0) as [s1 r] eqn:E. cbn [snd].
+  destruct (so_fuel r) eqn:Ef; [|discriminate]. intros _.
+  apply (c02_settles_partial _ _ _ _ _ E eq_refl). exact Ef.
+Qed.
